@@ -126,7 +126,7 @@ impl RoomNode {
 
         let mut admin_edges = Edge::get_edges(id, ROOM_ADMIN_FIELD_SHORT, conn)?;
         //user insertion order is mandatory
-        admin_edges.sort_by(|a, b| b.cdate.cmp(&a.cdate));
+        admin_edges.sort_by(|a, b| a.cdate.cmp(&b.cdate));
 
         let mut admin_nodes = Vec::new();
         for edge in &admin_edges {
@@ -312,7 +312,7 @@ impl AuthorisationNode {
         let mut last_modified = node.mdate;
         let mut right_edges = Edge::get_edges(id, AUTH_RIGHTS_FIELD_SHORT, conn)?;
         //rights insertion must respect must be done in the right order
-        right_edges.sort_by(|a, b| b.cdate.cmp(&a.cdate));
+        right_edges.sort_by(|a, b| a.cdate.cmp(&b.cdate));
 
         let mut right_nodes = Vec::new();
         for edge in &right_edges {
@@ -325,7 +325,7 @@ impl AuthorisationNode {
 
         let mut user_edges = Edge::get_edges(id, AUTH_USER_FIELD_SHORT, conn)?;
         //user insertion order is mandatory
-        user_edges.sort_by(|a, b| b.cdate.cmp(&a.cdate));
+        user_edges.sort_by(|a, b| a.cdate.cmp(&b.cdate));
 
         let mut user_nodes = Vec::new();
         for edge in &user_edges {
@@ -338,7 +338,7 @@ impl AuthorisationNode {
 
         let mut user_admin_edges = Edge::get_edges(id, AUTH_USER_ADMIN_FIELD_SHORT, conn)?;
         //user insertion order is mandatory
-        user_admin_edges.sort_by(|a, b| b.cdate.cmp(&a.cdate));
+        user_admin_edges.sort_by(|a, b| a.cdate.cmp(&b.cdate));
 
         let mut user_admin_nodes = Vec::new();
         for edge in &user_admin_edges {
